@@ -12,6 +12,31 @@ pub enum Case {
     Gen(GenCase),
     /// evaluator self test number n: a query of the repository's query_test.rs with its expected string
     SelfTest(u8),
+    /// hand written, readable regression case: texts and the result the property demands
+    Text(TextCase),
+}
+
+#[derive(Clone, Debug, Serialize, Deserialize)]
+pub struct TextCase {
+    /// signature reported when the real result differs from `expected`
+    pub signature: String,
+    /// models[0] is installed before the mutations, the following ones after them
+    pub models: Vec<String>,
+    /// one mutation text per entry; a `$prev` parameter is bound to the id of the first row written by the previous mutation
+    pub mutations: Vec<String>,
+    /// mutations run after the last model was installed
+    #[serde(default)]
+    pub mutations_after: Vec<String>,
+    pub query: String,
+    #[serde(default)]
+    pub params: Vec<(String, serde_json::Value)>,
+    /// what a direct evaluation of the query gives (derived by hand from the property)
+    pub expected: serde_json::Value,
+    /// paging walk: the query text contains `%PAGING%` (replaced by nothing for the first page, then by
+    /// `, after($k0, ..)` bound to these output fields of the last row of the previous page); the
+    /// concatenation of the pages must equal `expected`
+    #[serde(default)]
+    pub walk_keys: Vec<String>,
 }
 
 #[derive(Clone, Debug, Serialize, Deserialize)]
@@ -189,6 +214,9 @@ pub struct EntQSpec {
     pub paging: Option<PagingSpec>,
     /// bit i: sub i is listed in nullable()
     pub nullable: u8,
+    /// first / skip are passed as variables
+    #[serde(default)]
+    pub limit_var: bool,
 }
 
 #[derive(Clone, Debug, Serialize, Deserialize)]
@@ -411,10 +439,11 @@ fn entq_strategy(depth: u32, root: bool) -> BoxedStrategy<EntQSpec> {
             prop_oneof![6 => Just(0u8), 1 => 1u8..3],
             prop::option::weighted(0.15, paging_strategy()),
             prop_oneof![1 => Just(0u8), 1 => Just(1u8), 1 => Just(2u8), 2 => Just(3u8)],
+            prop::bool::weighted(0.2),
         ),
     )
         .prop_map(
-            |((ent, alias, sels, subs, aggs), (filters, order, append_id, first, skip, paging, nullable))| {
+            |((ent, alias, sels, subs, aggs), (filters, order, append_id, first, skip, paging, nullable, limit_var))| {
                 EntQSpec {
                     ent,
                     alias,
@@ -428,6 +457,7 @@ fn entq_strategy(depth: u32, root: bool) -> BoxedStrategy<EntQSpec> {
                     skip,
                     paging,
                     nullable,
+                    limit_var,
                 }
             },
         )
